@@ -70,7 +70,7 @@ def sparse_gapped_world(rng):
 def scenarios(ctx):
     rng = ctx.rng
     scs = []
-    n = 1200 if ctx.quick else 25000
+    n = 2500 if ctx.quick else 25000
     for i in range(n):
         mode = rng.random()
         if mode < 0.65:
